@@ -1202,10 +1202,16 @@ func (s *State) evalStringInfixExpression(operator token.Type, left, right objec
 		rightVal := right.(object.String).Value
 		return object.String{Value: leftVal + rightVal}
 	case operator == token.ASTERISK && rightIsInt:
-		n := len(leftVal) * int(rightVal)
 		if rightVal < 0 {
 			return s.Errorf("right operand of * on strings must be a positive integer, got %d", rightVal)
 		}
+		if leftVal == "" || rightVal == 0 {
+			return object.String{Value: ""}
+		}
+		if rightVal > int64(math.MaxInt)/int64(len(leftVal)) {
+			return s.Errorf("string repeat %d * %d is too large", len(leftVal), rightVal)
+		}
+		n := len(leftVal) * int(rightVal)
 		object.MustBeOk(n / object.ObjectSize)
 		return object.String{Value: strings.Repeat(leftVal, int(rightVal))}
 	default:
@@ -1225,6 +1231,12 @@ func (s *State) evalArrayInfixExpression(operator token.Type, left, right object
 		// TODO: go1.23 use	slices.Repeat
 		if rightVal < 0 {
 			return s.NewError("right operand of * on arrays must be a positive integer")
+		}
+		if len(leftVal) == 0 || rightVal == 0 {
+			return object.EmptyArray // also avoids spinning rightVal times appending nothing.
+		}
+		if rightVal > int64(math.MaxInt)/int64(len(leftVal)) {
+			return s.Errorf("array repeat %d * %d is too large", len(leftVal), rightVal)
 		}
 		result := object.MakeObjectSlice(len(leftVal) * int(rightVal))
 		for range rightVal {
